@@ -290,6 +290,40 @@ pub enum Phase {
     Subscription,
 }
 
+/// Measures how late this process's threads are woken (sleep overshoot). The end-to-end phases
+/// run in real time; when the machine is so loaded that a 10 ms sleep overshoots by more than
+/// `LAG_LIMIT_MS`, a timing-dependent failure says nothing about the code and is discarded.
+struct LagProbe {
+    stop: std::sync::Arc<std::sync::atomic::AtomicBool>,
+    max: std::sync::Arc<std::sync::atomic::AtomicU64>,
+    h: Option<std::thread::JoinHandle<()>>,
+}
+const LAG_LIMIT_MS: u64 = 200;
+impl LagProbe {
+    fn start() -> Self {
+        use std::sync::atomic::Ordering::Relaxed;
+        let stop = std::sync::Arc::new(std::sync::atomic::AtomicBool::new(false));
+        let max = std::sync::Arc::new(std::sync::atomic::AtomicU64::new(0));
+        let (s2, m2) = (stop.clone(), max.clone());
+        let h = std::thread::spawn(move || {
+            while !s2.load(Relaxed) {
+                let t = std::time::Instant::now();
+                std::thread::sleep(Duration::from_millis(10));
+                let lag = (t.elapsed().as_millis() as u64).saturating_sub(10);
+                m2.fetch_max(lag, Relaxed);
+            }
+        });
+        LagProbe { stop, max, h: Some(h) }
+    }
+    fn finish(mut self) -> u64 {
+        self.stop.store(true, std::sync::atomic::Ordering::Relaxed);
+        if let Some(h) = self.h.take() {
+            let _ = h.join();
+        }
+        self.max.load(std::sync::atomic::Ordering::Relaxed)
+    }
+}
+
 /// Run `scenarios` end-to-end scenarios for one property; a failure is a violation of that property.
 pub fn run(ctx: &Ctx, phase: Phase, scenarios: usize) {
     if ctx.failed() {
@@ -306,9 +340,10 @@ pub fn run(ctx: &Ctx, phase: Phase, scenarios: usize) {
         let classic = (z >> 16) & 1 == 1;
         // one attempt of the scenario; None = could not start (inconclusive)
         let attempt = |notes: &mut Vec<String>| -> Option<CheckResult> {
+            let probe = LagProbe::start();
             let cfg = DynamicConfig::from_cli(if classic { srtla_core::SchedulingMode::Classic } else { srtla_core::SchedulingMode::Enhanced }, (z >> 17) & 1 == 1, (z >> 18) & 1 == 1, 32, 3000, 5000);
             let Some(e) = E2e::start(&addrs, cfg, Duration::from_secs(20)) else {
-                notes.push(format!("scenario {k}: start-up did not complete within 20 s (inconclusive, skipped)"));
+                notes.push(format!("scenario {k}: start-up did not complete within 20 s (inconclusive, skipped; scheduling lag up to {} ms)", probe.finish()));
                 return None;
             };
             let r: CheckResult = match phase {
@@ -339,6 +374,11 @@ pub fn run(ctx: &Ctx, phase: Phase, scenarios: usize) {
                 Phase::Subscription => phase_subscription(&e, &addrs),
             };
             drop(e);
+            let lag = probe.finish();
+            if r.is_err() && lag > LAG_LIMIT_MS {
+                notes.push(format!("scenario {k}: a failure was observed while this process's threads were woken up to {lag} ms late (machine overloaded); discarded as inconclusive: {}", r.as_ref().err().map(|v| v.msg.clone()).unwrap_or_default()));
+                return None;
+            }
             Some(r)
         };
         let r = match attempt(&mut notes) {
@@ -351,6 +391,10 @@ pub fn run(ctx: &Ctx, phase: Phase, scenarios: usize) {
                 // real time is involved: a failure counts only if the same scenario fails again
                 match attempt(&mut notes) {
                     Some(Err(second)) => Err(Violation { sig: second.sig, msg: format!("{} (reproduced; first run: {})", second.msg, first.msg) }),
+                    None => {
+                        skipped += 1;
+                        continue;
+                    }
                     _ => {
                         notes.push(format!("scenario {k}: a failure did not reproduce on an identical second run and was discarded as inconclusive: {}", first.msg));
                         Ok(())
